@@ -137,3 +137,70 @@ def sym_step(parts, on_part=None):
             cur = env.get(nm, Lin({nm: 1}))
             env[nm] = cur + Lin({"": 1 if x.get("opcode") == "++" else -1})
     return env
+
+
+class Undecided(Exception):
+    pass
+
+
+def truth_table(d, fn, classify, n_atoms):
+    """{assignment tuple: bool} of a bool-returning function over n abstract atoms, decided along every path (if/early return, ?:, && ||, !,
+    hoisted bool locals).  classify(term) -> f(assignment) -> bool for an atomic comparison, or None if the term is not one."""
+    import itertools
+    from . import flow
+    from . import fstring as fs
+    loc = fs.local_sx(fn)
+
+    def tv(t, assign):
+        t = uncast(t)
+        k = t[0]
+        if k == "lit" and t[1] in ("true", "false"):
+            return t[1] == "true"
+        c = classify(t)
+        if c is not None:
+            return c(assign)
+        if k == "un" and t[1] == "!":
+            x = tv(t[2], assign)
+            return None if x is None else not x
+        if k == "cond":
+            c_ = tv(t[1], assign)
+            return None if c_ is None else tv(t[2] if c_ else t[3], assign)
+        if k == "bin" and t[1] in ("&&", "||"):
+            x = tv(t[2], assign)
+            if x is None:
+                return None
+            if x == (t[1] == "||"):
+                return x
+            return tv(t[3], assign)
+        return None
+    paths = flow.function_paths(fn, with_ctor_inits=False)
+    table = {}
+    for assign in itertools.product((True, False), repeat=n_atoms):
+        got = set()
+        for path in paths:
+            feas = True
+            for st in path:
+                if st[0] == "cond":
+                    x = tv(fs.subst_locals(ir.sx(st[1]), loc), assign)
+                    if x is None:
+                        raise Undecided("condition `%s`" % d.text(st[1])[:60])
+                    if x != st[2]:
+                        feas = False
+                        break
+            if not feas:
+                continue
+            end = path[-1]
+            if end[0] != "return" or not ir.ekids(end[1]):
+                raise Undecided("a path does not return a value")
+            x = tv(fs.subst_locals(ir.sx(ir.ekids(end[1])[0]), loc), assign)
+            if x is None:
+                lastc = [st for st in path if st[0] == "cond"]
+                rt = uncast(fs.subst_locals(ir.sx(ir.ekids(end[1])[0]), loc))
+                if lastc and rt[0] in ("bin", "un", "cond"):
+                    x = None
+                raise Undecided("returned expression `%s`" % d.text(ir.ekids(end[1])[0])[:60]) if x is None else None
+            got.add(x)
+        if len(got) != 1:
+            raise Undecided("paths disagree or none is feasible for %s" % (assign,))
+        table[assign] = got.pop()
+    return table
